@@ -38,7 +38,8 @@ ID = "C14"
 WORKERS = {"quick": 8, "thorough": 16}
 RULE = (
     "case = (durations drawn from {0,1,2,3,5} for four software items' fixing_duration, the defaults-block "
-    "folder_scan_duration / folder_restore_duration / optional service_fix_duration, node_scan_duration given on the node "
+    "folder_scan_duration / folder_restore_duration / optional service_fix_duration (alone, or together with the "
+    "per-service option, which must then win), node_scan_duration given on the node "
     "or in the defaults block, start-up/shut-down durations 0-2) x op sequence to depth 30 on host h0 over "
     "{tick, software scan/fix/compromise, file scan/corrupt/repair/restore/delete, folder scan/repair/restore/corrupt/"
     "delete/fs-restore, node os-scan, node shutdown/startup/reset, red DELETE (data-manipulation-bot) / ENCRYPT "
@@ -88,8 +89,10 @@ def build_cfg(c: Dict) -> Dict:
     fix = c["fix"]
 
     def sopt(name, **kw):
-        # the per-service option and the defaults-block key are never given together: their precedence is undocumented
-        if c.get("fix_default") is None:
+        # defaults-block key alone -> the default applies; per-service option given (alone or with the defaults key,
+        # cfg["fix_both"]) -> the option applies: common_configuration.rst defines options.fixing_duration as *the* number
+        # of timesteps the software stays FIXING, a "default" cannot override it
+        if c.get("fix_default") is None or c.get("fix_both"):
             kw["fixing_duration"] = fix[name]
         return {"type": name, "options": kw}
 
@@ -125,7 +128,7 @@ def expected_durations(c: Dict) -> Dict[str, Any]:
     """What the scenario dict configures (documented keys), independent of the built objects."""
     fix = {}
     for s in SERVICES:
-        fix[s] = c["fix_default"] if c.get("fix_default") is not None else c["fix"][s]
+        fix[s] = c["fix_default"] if (c.get("fix_default") is not None and not c.get("fix_both")) else c["fix"][s]
     for a in APPS:
         fix[a] = c["fix"][a]
     return {"fix": fix, "fscan": c["fscan"], "frestore": c["frestore"], "nscan": c["nscan"]}
@@ -749,6 +752,7 @@ def cfg_strategy():
     return st.fixed_dictionaries({
         "fix": st.fixed_dictionaries({n: d for n in SW}),
         "fix_default": st.one_of(st.none(), st.none(), d),
+        "fix_both": st.booleans(),
         "fscan": d,
         "frestore": d,
         "nscan": d,
@@ -872,6 +876,8 @@ def enumerated_cases():
                         [["sw", "web-browser", "compromise"], ["sw", "web-browser", "fix"]]),
             "fix-default": (base_cfg_case(fix_default=d),
                             [["sw", "ntp-server", "compromise"], ["sw", "ntp-server", "fix"]]),
+            "fix-option-and-default": (base_cfg_case(fix={n: d for n in SW}, fix_default=4, fix_both=True),
+                                       [["sw", "ntp-server", "compromise"], ["sw", "ntp-server", "fix"]]),
             "fscan": (base_cfg_case(fscan=d), [["file", "fa", "x.txt", "corrupt"], ["folder", "fa", "scan"]]),
             "fscan-root": (base_cfg_case(fscan=d), [["file", "root", "r.txt", "corrupt"], ["folder", "root", "scan"]]),
             "fscan-db": (base_cfg_case(fscan=d), [["db", "ENCRYPT"], ["folder", "database", "scan"]]),
@@ -906,7 +912,7 @@ def worker(ctx: Ctx):
     if ctx.idx == 0:
         ctx.extra["enumerated_family_cases"] = len(cases)
         ctx.extra["enumerated_family"] = (
-            "10 programs (service/application/defaults fix, folder scan on created/root/database folder, node scan "
+            "11 programs (service/application/defaults/option+defaults fix, folder scan on created/root/database folder, node scan "
             "via node key / defaults key, folder restore, fs-level restore of a deleted folder) x durations "
             "{0,1,2,3,5}: straight line, and with each of 13 interfering events at every tick position"
             + ("" if ctx.tier == "thorough" else " (quick: every straight-line case, every 2nd interference case)")
